@@ -1,5 +1,6 @@
 import WindVerif.Proofs.RecordFile
 import WindVerif.Proofs.JsonRecords
+import WindVerif.Proofs.RecFileM
 /-!
 # C13 — Records survive save/load and record files are sequences of records
 
@@ -76,5 +77,127 @@ theorem record_file_roundtrip (d : Char) (hd : IsDelim d) (rs : List (List Str))
 example : writeRow ',' ["a,b".toList, "q\"".toList] = "\"a,b\",\"q\"\"\"\r\n".toList ∧ writeRow ',' [[]] = "\"\"\r\n".toList := by
   decide
 example : Clean "a,b \"x\"".toList := by unfold Clean; decide
+
+end WindVerif.C13
+
+/-!
+## Mutable record files, for any record format with a round trip (model `Model/RecFile.lean`, proofs `Proofs/RecFileM.lean`)
+
+`Fmt` is a record class (`load`, `save`); `Fmt.Ok` / `Fmt.OkMem` / `Fmt.OneLine` say that on a domain `P` of records the
+saved text loads back — as the saved file holds it (`rstrip("\n")`: for csv the `"\r"` of `"\r\n"` stays) and as the memory
+holds it — and occupies one line.  `Inv` is the invariant of a history of edits, `Loads` says every source line loads into
+the domain.  Instances: csv / tsv with `k` string fields (from `csv_roundtrip_cr`, not re-proved) and json.
+-/
+namespace WindVerif.C13
+open WindVerif.RecFile
+open WindVerif.Records (IsDelim Clean)
+
+/-- every edit keeps the invariant and never writes the source -/
+theorem recfile_inv_step {R : Type} (F : Fmt R) (P : R → Prop) (hmem : F.OkMem P) {f : RecFile} (hf : Inv F P f)
+    (op : Op R) (hop : ∀ r ∈ op.recs, P r) (hl : op = .reverse → Loads F P f.source) :
+    Inv F P (f.step F op) ∧ (f.step F op).source = f.source := by
+  first | exact WindVerif.RecFile.inv_step .. | (apply WindVerif.RecFile.inv_step <;> assumption)
+
+/-- the freshly opened file is in the invariant: from a list of lines, and from the characters of a file (read through the
+offset index of `Model/LineFile.lean`) -/
+theorem recfile_inv_open {R : Type} (F : Fmt R) (P : R → Prop) (source : List RecFile.Str)
+    (h : ∀ l ∈ source, '\n' ∉ l) (content : RecFile.Str) :
+    Inv F P (RecFile.open source) ∧ Inv F P (RecFile.ofContent content) ∧
+    readLines content = WindVerif.LineFile.refLines content :=
+  ⟨WindVerif.RecFile.inv_open F P source h, WindVerif.RecFile.inv_ofContent F P content,
+    WindVerif.RecFile.readLines_eq content⟩
+
+/-- save (ending `"\n"`) + reopen of a file in the invariant presents the same records -/
+theorem recfile_reopen_state {R : Type} (F : Fmt R) (P : R → Prop) (hok : F.Ok P) (hmem : F.OkMem P)
+    (h1 : F.OneLine P) (f : RecFile) (hf : Inv F P f) :
+    (RecFile.ofContent (f.saveText ['\n'])).records F = f.records F := by
+  first | exact WindVerif.RecFile.reopen_of_inv .. | (apply WindVerif.RecFile.reopen_of_inv <;> assumption)
+
+/-- EDIT, SAVE, REOPEN for every sequence of `set` / `insert` / `append` / `del` / `pop` / `reverse` with records of the
+domain (if `reverse` occurs, every source line must load into the domain: `reverse` re-serialises what it loads) -/
+theorem recfile_reopen_roundtrip {R : Type} (F : Fmt R) (P : R → Prop) (hok : F.Ok P) (hmem : F.OkMem P)
+    (h1 : F.OneLine P) (source : List RecFile.Str) (hsrc : ∀ l ∈ source, '\n' ∉ l) (ops : List (Op R))
+    (hops : ∀ op ∈ ops, ∀ r ∈ op.recs, P r) (hl : Op.reverse ∈ ops → Loads F P source) :
+    (RecFile.ofContent (((RecFile.open source).run F ops).saveText ['\n'])).records F =
+      ((RecFile.open source).run F ops).records F := by
+  first | exact WindVerif.RecFile.reopen_roundtrip .. | (apply WindVerif.RecFile.reopen_roundtrip <;> assumption)
+
+/-- `reverse()` re-serialises: on a file all of whose `n` positions load, every position except the middle one (`n` odd)
+holds afterwards the `save()` text of the record presented before at the mirrored position; the middle one is not written -/
+theorem reverse_reserialises {R : Type} (F : Fmt R) (f : RecFile) (rs : List R) (hrs : f.records F = rs.map some)
+    (j : Nat) (hj : j < f.slots.length) :
+    (2 * j + 1 ≠ f.slots.length → ∃ r, (f.records F)[f.slots.length - 1 - j]? = some (some r) ∧
+      (f.reverse F).1.slots[j]? = some (.txt (F.save r))) ∧
+    (2 * j + 1 = f.slots.length → (f.reverse F).1.slots[j]? = f.slots[j]?) := by
+  first | exact WindVerif.RecFile.reverse_reserialises .. | (apply WindVerif.RecFile.reverse_reserialises <;> assumption)
+
+/-- the csv / tsv format with `k` string fields has the three round-trip properties on records of `k` fields without line
+breaks (from `csv_roundtrip_cr`, `csv_roundtrip`, `csv_single_line`) -/
+theorem csvFmt_ok (d : Char) (hd : IsDelim d) (k : Nat) :
+    (csvFmt d k).Ok (csvP k) ∧ (csvFmt d k).OkMem (csvP k) ∧ (csvFmt d k).OneLine (csvP k) :=
+  ⟨WindVerif.RecFile.csvFmt_ok d hd k, WindVerif.RecFile.csvFmt_okMem d hd k, WindVerif.RecFile.csvFmt_oneLine d hd k⟩
+
+/-- a mutable csv / tsv record file: edit with records whose fields carry no line breaks, save, reopen — the same records -/
+theorem csv_recfile_reopen (d : Char) (hd : IsDelim d) (k : Nat) (content : RecFile.Str)
+    (ops : List (Op (List RecFile.Str))) (hops : ∀ op ∈ ops, ∀ r ∈ op.recs, csvP k r)
+    (hl : Op.reverse ∈ ops → Loads (csvFmt d k) (csvP k) (readLines content)) :
+    (RecFile.ofContent (((RecFile.ofContent content).run (csvFmt d k) ops).saveText ['\n'])).records (csvFmt d k) =
+      ((RecFile.ofContent content).run (csvFmt d k) ops).records (csvFmt d k) := by
+  first | exact WindVerif.RecFile.csv_recfile_reopen .. | (apply WindVerif.RecFile.csv_recfile_reopen <;> assumption)
+
+/-- the same for `JsonRecord` over the modelled `json` module (pairwise distinct field names, well-formed values) -/
+theorem json_recfile_reopen (names : List RecFile.Str) (hn : names.Nodup) (content : RecFile.Str)
+    (ops : List (Op (List (RecFile.Str × WindVerif.Json.JVal)))) (hops : ∀ op ∈ ops, ∀ r ∈ op.recs, jsonP names r)
+    (hl : Op.reverse ∈ ops → Loads (jsonFmt names) (jsonP names) (readLines content)) :
+    (RecFile.ofContent (((RecFile.ofContent content).run (jsonFmt names) ops).saveText ['\n'])).records (jsonFmt names) =
+      ((RecFile.ofContent content).run (jsonFmt names) ops).records (jsonFmt names) := by
+  first | exact WindVerif.RecFile.json_recfile_reopen .. | (apply WindVerif.RecFile.json_recfile_reopen <;> assumption)
+
+/-! non-vacuity: a 3-line csv source with a needlessly quoted field; `f[1] = …`, `insert(0, …)`, `reverse()`, save, reopen -/
+
+/-- the characters of the source are read as these three lines -/
+example : readLines "a,\"b\"\nc,d\ne,\"f,g\"\n".toList = ["a,\"b\"".toList, "c,d".toList, "e,\"f,g\"".toList] := by
+  rw [WindVerif.RecFile.readLines_eq]; decide
+
+/-- every source line loads into the domain (the hypothesis `Loads` that `reverse` needs) -/
+example : Loads (csvFmt ',' 2) (csvP 2) ["a,\"b\"".toList, "c,d".toList, "e,\"f,g\"".toList] := by
+  intro l hl
+  simp only [List.mem_cons, List.not_mem_nil, or_false] at hl
+  rcases hl with rfl | rfl | rfl
+  · exact ⟨["a".toList, "b".toList], by decide, by unfold csvP Clean; decide⟩
+  · exact ⟨["c".toList, "d".toList], by decide, by unfold csvP Clean; decide⟩
+  · exact ⟨["e".toList, "f,g".toList], by decide, by unfold csvP Clean; decide⟩
+
+/-- the written records are in the domain -/
+example : ∀ op ∈ ([.set 1 ["x".toList, "y,z".toList], .insert 0 ["i".toList, []], .reverse] : List (Op (List RecFile.Str))),
+    ∀ r ∈ op.recs, csvP 2 r := by
+  intro op hop
+  simp only [List.mem_cons, List.not_mem_nil, or_false] at hop
+  rcases hop with rfl | rfl | rfl <;> intro r hr <;> simp only [Op.recs, List.mem_cons, List.not_mem_nil, or_false] at hr
+  · subst hr; unfold csvP Clean; decide
+  · subst hr; unfold csvP Clean; decide
+
+/-- the concrete run: the saved text, and what reading its lines back presents (the text is split by `refLines`, which
+`readLines_eq` proves equal to reading through the offset index) -/
+example :
+    let F := csvFmt ',' 2
+    let f := (RecFile.open ["a,\"b\"".toList, "c,d".toList, "e,\"f,g\"".toList]).run F
+      [.set 1 ["x".toList, "y,z".toList], .insert 0 ["i".toList, []], .reverse]
+    f.saveText ['\n'] = "e,\"f,g\"\r\nx,\"y,z\"\r\na,b\r\ni,\r\n".toList ∧
+    (RecFile.open (WindVerif.LineFile.refLines (f.saveText ['\n']))).records F = f.records F ∧
+    f.records F = [some ["e".toList, "f,g".toList], some ["x".toList, "y,z".toList], some ["a".toList, "b".toList],
+      some ["i".toList, []]] := by
+  decide
+
+/-- `reverse` on an odd-length file leaves the middle position unwritten -/
+example : ((RecFile.open ["a,b".toList, "c,\"d\"".toList, "e,f".toList]).reverse (csvFmt ',' 2)) =
+    (⟨["a,b".toList, "c,\"d\"".toList, "e,f".toList], [.txt "e,f\r\n".toList, .src 1, .txt "a,b\r\n".toList]⟩, none) := by
+  decide
+
+/-- a line with too few fields raises in the middle of `reverse`: the first swap stays -/
+example : ((RecFile.open ["a,b".toList, "c".toList, "e,f".toList, "g,h,i".toList]).reverse (csvFmt ',' 2)) =
+    (⟨["a,b".toList, "c".toList, "e,f".toList, "g,h,i".toList],
+      [.txt "g,h\r\n".toList, .src 1, .src 2, .txt "a,b\r\n".toList]⟩, some .loadError) := by
+  decide
 
 end WindVerif.C13
